@@ -102,6 +102,7 @@ func run(args []string, stdout io.Writer) error {
 		if err != nil {
 			return fmt.Errorf("error getting NAL units: %w", err)
 		}
+		nalus = dropEmptyNalus(nalus)
 		frames, err := findAnnexBFrames(nalus, o.codec)
 		if err != nil {
 			return fmt.Errorf("error finding frames: %w", err)
@@ -205,6 +206,7 @@ func parseProgressiveMp4(w io.Writer, f *mp4.File, maxNrSamples int, codec strin
 		if err != nil {
 			return err
 		}
+		nalus = dropEmptyNalus(nalus)
 		switch codec {
 		case "avc", "h.264", "h264":
 			if avcSPS == nil {
@@ -293,6 +295,7 @@ func parseFragmentedMp4(w io.Writer, f *mp4.File, maxNrSamples int, codec string
 		if err != nil {
 			return err
 		}
+		nalus = dropEmptyNalus(nalus)
 		switch codec {
 		case "avc", "h.264", "h264":
 			err = printAVCNalus(w, avcSPS, nalus, i+1, s.PresentationTime(), seiLevel, parameterSets, nrRaw)
@@ -467,6 +470,18 @@ func bytesToStringN(data []byte, maxNrBytes int) string {
 		return hex.EncodeToString(data[:maxNrBytes]) + "..."
 	}
 	return hex.EncodeToString(data)
+}
+
+// dropEmptyNalus removes NAL units without any byte (a zero length field in a sample,
+// or two start codes in a row in an Annex B stream). They have no header to look at.
+func dropEmptyNalus(nalus [][]byte) [][]byte {
+	kept := make([][]byte, 0, len(nalus))
+	for _, nalu := range nalus {
+		if len(nalu) > 0 {
+			kept = append(kept, nalu)
+		}
+	}
+	return kept
 }
 
 func findAnnexBFrames(nalus [][]byte, codec string) ([][][]byte, error) {
